@@ -65,6 +65,10 @@ func checkC07(c *Ctx, r *Report) {
 		r.instance("R7.6", copyItems(tmp, r, "R2.1", "R7.6")+copyItems(tmp, r, "R2.6", "R7.6"))
 		r.floor("R7.6", 20)
 	}
+	// ---- R7.9: whatever reaches the reply dispatchers comes back as a reply or as an error, never
+	// as neither (a truncated frame must not be reported as success without a reply) (C02 R2.7)
+	c02NeverNeither(c, r, "R7.9")
+	r.floor("R7.9", 6)
 	// ---- R7.7: a complete legal reply is never refused as oversized: the length limit the read
 	// loop applies is the specification's ADU size (C08 R8.4)
 	for _, spec := range []struct {
@@ -188,8 +192,12 @@ func c07Expected(c *Ctx, r *Report, tn *types.Named, tcp, control bool) map[stri
 		rep(true, fmt.Sprintf("ExpectedResponseLength = %s = length of the specified FC%d reply", want.String(), fc), "", "")
 	} else {
 		d := E.sub(want)
+		dir := ""
+		if rst.entails(atomGE(E, want)) {
+			dir = "; never-short: the loop never stops before the whole reply has been read"
+		}
 		rep(false, fmt.Sprintf("ExpectedResponseLength differs from the length of the specified FC%d reply", fc),
-			fmt.Sprintf("expected=%s, specified reply length=%s (difference %s)", E.String(), want.String(), d.String()), "expected="+E.String()+" true="+want.String())
+			fmt.Sprintf("expected=%s, specified reply length=%s (difference %s%s)", E.String(), want.String(), d.String(), dir), "expected="+E.String()+" true="+want.String())
 	}
 	return fired
 }
